@@ -98,7 +98,7 @@ def main():
         "checks": checks,
         "not_applicable": na,
         "notes": "All checks honour VERIF_SEED and VERIF_TIER, rebuild from /repo's working tree (keyed by a hash of the sources) and rewrite evidence/<id>.json. "
-                 "Exit 0 = held, 1 = VIOLATION line with a replay file that reproduces in a fresh process, 2 = infrastructure error. Genuine defects found: KNOWN_FINDINGS (25 repaired by 26 fix: commits in /repo, recorded as fixed: lines; 1 recorded as known: -- C03 dump-ignores-offset-table -- for which the C03 check prints KNOWN-FINDING and exits 0). Seeded breaking changes the checks were tuned against: seeded/ (188); property-preserving changes they must stay silent on: benign/.",
+                 "Exit 0 = held, 1 = VIOLATION line with a replay file that reproduces in a fresh process, 2 = infrastructure error. Genuine defects found: KNOWN_FINDINGS (30 repaired by 32 fix: commits in /repo, recorded as fixed: lines; 1 recorded as known: -- C03 dump-ignores-offset-table -- for which the C03 check prints KNOWN-FINDING and exits 0). Seeded breaking changes the checks were tuned against: seeded/ (188); property-preserving changes they must stay silent on: benign/.",
     }
     json.dump(m, open(os.path.join(HERE, "MANIFEST.json"), "w"), indent=1)
     print("claimed:", claimed)
